@@ -95,12 +95,19 @@ int snoopy_cli_action_disable ()
     // Skip the entry line we're removing, copy the rest
     destPosPtr = newEtcLdSoPreloadContent + copyLength;
     entryLine  = snoopy_util_string_copyLineFromContent(entryPtr);
-    srcPosPtr  = entryPtr + strlen(entryLine);
-    copyLength = (unsigned int) (strlen(curEtcLdSoPreloadContent) - (entryPtr - curEtcLdSoPreloadContent) - strlen(entryLine));
-    if (*srcPosPtr == '\n') {
+    srcPosPtr  = entryPtr + strlen(libsnoopySoPath);
+    while ((*srcPosPtr == ' ') || (*srcPosPtr == '\t')) {
         srcPosPtr++;
-        copyLength--;
     }
+    if ((*srcPosPtr == '\0') || (*srcPosPtr == '\n') || (*srcPosPtr == '#')) {
+        // Our entry is alone on its line (possibly followed by a comment): remove the whole line
+        srcPosPtr = entryPtr + strlen(entryLine);
+        if (*srcPosPtr == '\n') {
+            srcPosPtr++;
+        }
+    }
+    // Otherwise other libraries share the line with our entry: remove only our entry (and the whitespace that follows it)
+    copyLength = (unsigned int) strlen(srcPosPtr);
     strncpy(destPosPtr, srcPosPtr, copyLength);
 
     destPosPtr += copyLength;
